@@ -1,6 +1,7 @@
 package main
 
 import (
+	"strconv"
 	"runtime"
 	"reflect"
 	"os"
@@ -215,7 +216,25 @@ func c15Pool(rng *rand.Rand, n int) [][]byte {
 			add(f)
 		}
 	}
+	// every MSM type occurs at least once (the "first" processes below start with the frames of one constellation)
+	for _, typ := range gen.MSMTypes {
+		sm := gen.RandomMSM(rng, typ, 3, -1, 0, 1)
+		if len(sm.Cell) == 0 {
+			sm.MM = 0
+		}
+		if p := sm.Encode(); len(p) <= 1023 {
+			add(tr.Frame(p))
+		}
+	}
 	return pool
+}
+
+// frameType: the 12-bit message type of a frame (-1 for anything too short)
+func frameType(f []byte) int {
+	if len(f) < 5 || f[0] != 0xd3 {
+		return -1
+	}
+	return int(f[3])<<4 | int(f[4])>>4
 }
 
 func c15(args []string) {
@@ -267,6 +286,26 @@ func c15(args []string) {
 			for k, f := range all {
 				h := handler.New(start, lv)
 				emit(observe(safeGet(h, f), fmt.Sprintf("c%d/%s", k, lv), "sequential-after-concurrent"))
+			}
+		}
+		return
+	}
+	if len(args) > 2 && args[1] == "first" {
+		// a fresh process whose first MSM frames belong to ONE constellation (MSM4 type given, MSM7 = +3): whatever the
+		// library sets up on first use (tables per constellation, shared between constellations or not) is set up by these
+		// frames; then the whole pool.  Every frame must decode and display as in every other process.
+		t4, _ := strconv.Atoi(args[2])
+		for _, lv := range levels {
+			for pass := 0; pass < 2; pass++ {
+				for i, f := range pool {
+					ft := frameType(f)
+					if pass == 0 && ft != t4 && ft != t4+3 {
+						continue
+					}
+					h := handler.New(start, lv)
+					m := safeGet(h, f)
+					emit(observe(m, key(i, lv), fmt.Sprintf("fresh-process-first-%d", t4)))
+				}
 			}
 		}
 		return
